@@ -21,6 +21,8 @@ COQ_FILES = ['C07/Model.v', 'Gen/C07CacheKeys.v', 'C07/Proofs.v', 'C07/Args.v', 
 IMPL = os.path.join(os.path.dirname(os.path.abspath(__file__)), 'impl_c07.py')
 WORKDIR = os.path.join(WORK, 'c07')     # common.WORK is private to this invocation and removed at exit
 KNOWN_SIG = 'C07/stale-cached-engine-after-non-rules-load'
+PROOF_TRUSTED = ['tools/c07_cache_keys.py (extractor, fail closed)',
+                 'harness/c07.py + harness/impl_c07.py (fresh-interpreter oracle, frame snapshots, correspondence)']
 PAR = 4
 
 
@@ -690,7 +692,7 @@ def shrink(uni, hist, pos, sig, pool, budget=40):
 
 # ---- model side ---------------------------------------------------------------------------------------
 HEADER = r'''From Coq Require Import String List Bool Arith NArith.
-From Tally Require Import C07.Model C07.Args Gen.C07CacheKeys.
+From Tally Require Import C07.Model C07.Args.
 Import ListNotations.
 Open Scope string_scope.
 Definition sbytes (l : list N) : string := fold_right (fun n s => String (Ascii.ascii_of_N n) s) EmptyString l.
@@ -781,19 +783,19 @@ Definition adecode (T : atabs) (c : nat * nat * nat * string) : aop (aw T) :=
   let '(tag, a, r, s) := c in
   let d := match r with 0 => None | _ => Some r end in
   match tag with 3 => @AParse (aw T) a | 4 => @AMatch (aw T) a d | _ => @AEval (aw T) s a d end.
-Definition source_design : design :=
-  {| remembers_rows := negb C07CacheKeys.engine_match_write_free; shares_scope := negb C07CacheKeys.scope_per_evaluation |}.
-Fixpoint awalk (T : atabs) (st : astate (aw T)) (h : list ((nat * nat * nat * string) * nat)) : bool :=
+(* the design is passed in literally from THIS run's extraction (never read from the shared Gen .vo, which a concurrent
+   check of another tree may have rebuilt in the meantime) *)
+Fixpoint awalk (source_design : design) (T : atabs) (st : astate (aw T)) (h : list ((nat * nat * nat * string) * nat)) : bool :=
   match h with
   | [] => true
   | (c, id) :: r =>
       let so := astep (aw T) source_design st (adecode T c) in
-      (match snd so with AParsed => true | ARes x => Nat.eqb x id | AVal v => Nat.eqb v id end) && awalk T (fst so) r
+      (match snd so with AParsed => true | ARes x => Nat.eqb x id | AVal v => Nat.eqb v id end) && awalk source_design T (fst so) r
   end.
-Fixpoint afailing_h (T : atabs) (i : nat) (hs : list (list ((nat * nat * nat * string) * nat))) : list nat :=
+Fixpoint afailing_h (D : design) (T : atabs) (i : nat) (hs : list (list ((nat * nat * nat * string) * nat))) : list nat :=
   match hs with
   | [] => []
-  | h :: r => if awalk T (ainit (aw T)) h then afailing_h T (S i) r else i :: afailing_h T (S i) r
+  | h :: r => if awalk D T (ainit (aw T)) h then afailing_h D T (S i) r else i :: afailing_h D T (S i) r
   end.
 Fixpoint failing_h (T : tabs) (fx : bool) (i : nat) (hs : list (list ((nat * nat * string) * obs))) : list nat :=
   match hs with
@@ -938,11 +940,13 @@ def model_check(unis, all_hists, all_results, freshes, fx, pool, name='C07'):
     if cur:
         chunks.append(cur)
 
+    design_def = ('Definition SD : design := {| remembers_rows := ' + cbool(not model_check.design[0]) + '; shares_scope := ' +
+                  cbool(not model_check.design[1]) + ' |}.\n')
     bodies = []
     args_n = [0]
     model_check.args_histories = 0
     for ci, uis in enumerate(chunks):          # phase 1: oracle tables (fresh interpreters, <= PAR at a time)
-        body = []
+        body = [design_def]
         for ui in uis:
             tabs, obs, atabs, aobs = model_tables(unis[ui], all_hists[ui], all_results[ui], freshes[ui], fx, pool)
             args_n[0] += len(aobs)
@@ -951,7 +955,7 @@ def model_check(unis, all_hists, all_results, freshes, fx, pool, name='C07'):
             body.append(f'Definition AT{ui} : atabs := {atabs}.\nDefinition AH{ui} : list (list ((nat * nat * nat * string) * nat)) := [\n' +
                         ';\n'.join(aobs) + '\n].\n')
         # one list: the main model's failing histories, then (1000 + universe) for the Args model's
-        body.append('Eval vm_compute in [' + '; '.join(f'({ui}, failing_h T{ui} {cbool(fx)} 0 H{ui}); ({1000 + ui}, afailing_h AT{ui} 0 AH{ui})'
+        body.append('Eval vm_compute in [' + '; '.join(f'({ui}, failing_h T{ui} {cbool(fx)} 0 H{ui}); ({1000 + ui}, afailing_h SD AT{ui} 0 AH{ui})'
                                                         for ui in uis) + '].\n')
         bodies.append((ci, uis, '\n'.join(body)))
 
@@ -1007,14 +1011,29 @@ def main(tier):
         'not change between the calls of ONE load (get_transforms / get_tag_only_rules / get_all_rules, either order)',
         'a load is ONE operation: the fresh-process reference always calls get_all_rules first, whatever order (CLI order or not) the '
         'in-process load used - the rule set must not depend on which getter was asked first',
+        'the correspondence files take the model variant and the design flags literally from this run\'s extraction, and the proof step is '
+        'repeated if the shared Gen/C07CacheKeys.v was rewritten by a concurrent check of another tree (VERIF_REPO) in the meantime',
         'cached ASTs / compiled patterns are values in the model; that the implementation never changes one after storing it is CHECKED '
         'after every operation (ast.dump of each _expression_cache entry = dump of a new parse of its key; pattern/flags of each '
         '_regex_cache entry = re.compile(key, re.IGNORECASE)): signature C07/cached-value-mutated; cache keys are str; set/dict order, object identities and message texts are not compared',
     ]
     tfails = regen_gen()
-    res = run.proof_step(COQ_FILES, extra_trusted=[
-        'tools/c07_cache_keys.py (extractor, fail closed)',
-        'harness/c07.py + harness/impl_c07.py (fresh-interpreter oracle, frame snapshots, correspondence)'])
+    res = None
+    for attempt in range(4):
+        obl0, dis0 = run.cov['obligations'], run.cov['discharged']
+        res = run.proof_step(COQ_FILES, extra_trusted=PROOF_TRUSTED)
+        mine = c07_cache_keys.generate(SRC)[0]
+        try:
+            on_disk = open(os.path.join(COQ, 'theories', 'Gen', 'C07CacheKeys.v')).read()
+        except OSError:
+            on_disk = None
+        if tfails or mine is None or on_disk == mine:
+            break
+        # a concurrent check of ANOTHER tree rewrote Gen/C07CacheKeys.v between our regeneration and the build: redo
+        run.cov['obligations'], run.cov['discharged'] = obl0, dis0
+        run.cov.setdefault('gen_file_races', 0)
+        run.cov['gen_file_races'] += 1
+        regen_gen()
     run.cov['obligations'] += 1          # the extraction itself
     if not tfails:
         run.cov['discharged'] += 1
@@ -1028,6 +1047,8 @@ def main(tier):
         broken.append({'kind': 'hygiene', 'detail': res['hygiene']})
     facts = c07_cache_keys.generate(SRC)[1]
     fx = bool(facts and facts['cached']['resets'])
+    model_check.design = ((facts['writes']['engine_match_write_free'], facts['writes']['scope_per_evaluation'])
+                          if facts else (True, True))
     if facts is None:       # extraction failed: keep the variant of the last successful extraction for the correspondence
         try:
             fx = 'get_all_rules_resets_cached_engine : bool := true' in open(
